@@ -784,6 +784,11 @@ def fuse_wrappers(trees, unknown, report):
         if (rel, name) in unknown or F.decorator_list or F.args.vararg or F.args.kwarg or F.args.posonlyargs:
             continue
         body = _strip_doc(F.body)
+        # an optional prologue that only materialises defaults: `if p is None: p = <expr>` for parameters p
+        prologue = []
+        while len(body) > 1 and isinstance(body[0], ast.If) and not body[0].orelse and len(body[0].body) == 1 and isinstance(body[0].test, ast.Compare) and len(body[0].test.ops) == 1 and isinstance(body[0].test.ops[0], ast.Is) and isinstance(body[0].test.left, ast.Name) and isinstance(body[0].test.comparators[0], ast.Constant) and body[0].test.comparators[0].value is None and isinstance(body[0].body[0], ast.Assign) and len(body[0].body[0].targets) == 1 and isinstance(body[0].body[0].targets[0], ast.Name) and body[0].body[0].targets[0].id == body[0].test.left.id and body[0].test.left.id in [a.arg for a in F.args.args + F.args.kwonlyargs]:
+            prologue.append(body[0])
+            body = body[1:]
         if len(body) != 1 or not isinstance(body[0], ast.Return) or not isinstance(body[0].value, ast.Call):
             continue
         call = body[0].value
@@ -813,6 +818,15 @@ def fuse_wrappers(trees, unknown, report):
         if any(any(_arg_at(c, G, j) is None for j in range(len(gparams))) for _, c in sites):
             continue
         site_args = {id(c): {gp: _arg_at(c, G, j) for j, gp in enumerate(gparams)} for _, c in sites}
+        if prologue:
+            # with a prologue F(x) is G(x) only where the prologue changes nothing: the other calls of G must be G's own
+            # recursion, passing its (never rebound) parameter on in the position of every materialised parameter
+            inv_b = {v: k for k, v in bound.items()}
+            mat = [inv_b[p_.test.left.id] for p_ in prologue]
+            g_nodes = {id(x) for x in ast.walk(G)}
+            g_stores = {x.id for x in ast.walk(G) if isinstance(x, ast.Name) and isinstance(x.ctx, (ast.Store, ast.Del))}
+            if any(id(c) not in g_nodes for _, c in sites) or any(gp in g_stores for gp in mat) or any(not (isinstance(site_args[id(c)][gp], ast.Name) and site_args[id(c)][gp].id == gp) for _, c in sites for gp in mat):
+                continue
         if any(isinstance(n, (ast.Global, ast.Nonlocal)) for n in ast.walk(G)) or any(isinstance(n, (ast.Yield, ast.YieldFrom)) for n in _walk_own(G)) != any(isinstance(n, (ast.Yield, ast.YieldFrom)) for n in _walk_own(F)):
             continue
         # locals of G that clash with names of F's parameters are renamed first
@@ -847,7 +861,7 @@ def fuse_wrappers(trees, unknown, report):
             ast.fix_missing_locations(c)
             changed.add(r)
         doc = F.body[:1] if F.body and isinstance(F.body[0], ast.Expr) and isinstance(F.body[0].value, ast.Constant) and isinstance(F.body[0].value.value, str) else []
-        F.body = doc + _strip_doc(G.body)
+        F.body = doc + prologue + _strip_doc(G.body)
         trees[rel].body = [x for x in trees[rel].body if x is not G]
         ast.fix_missing_locations(F)
         changed.add(rel)
